@@ -491,7 +491,8 @@ def cmd_replay(path):
 # --------------------------------------------------------------------------- a property check
 
 def select(reg, prop, tier, only):
-    hs = [h for h in reg.values() if prop in h["props"]]
+    # tier=off: harnesses kept in the source for the record (measured out of reach, see DESIGN.md)
+    hs = [h for h in reg.values() if prop in h["props"] and (h["tier"] != "off" or (only and h["name"] in only))]
     if tier == "quick":
         hs = [h for h in hs if h["tier"] == "quick"]
     if only:
